@@ -586,7 +586,58 @@ def check_attrs(c):
     return None
 
 
+def gen_origin_set(rng: random.Random, tier: str):
+    for _ in range(_n(tier, 80, 2000, 300)):
+        d = rng.choice([2, 3])
+        spec = gen.grid_spec(rng, d, min_size=5, max_size=15)
+        if rng.random() < 0.6:
+            spec["size"] = [n if n % 2 == 1 else n + 1 for n in spec["size"]]     # odd: halving leaves a fractional stored size
+        yield {"grid": spec, "derive": rng.choice([None, "downsample", "downsample", "resample"]),
+               "factor": round(rng.uniform(1.1, 1.7), 3), "how": rng.choice(["origin", "origin_", "crop", "pad"]),
+               "new": [round(rng.uniform(-50, 50), 3) for _ in range(d)], "num": rng.randint(1, 2)}
+
+
+def check_origin_set(c):
+    """the ITK convention after the origin is SET on an existing (possibly re-gridded) grid: sample 0 sits at the
+    origin that was asked for, `origin()` reports it, the stored centre is the position of index (n-1)/2, and the
+    header agrees with SimpleITK. Re-gridded grids carry a fractional stored size (9 -> 4.5 with 5 samples)."""
+    spec = dict(c["grid"])
+    if c["derive"]:
+        spec["derive"], spec["derive_factor"] = c["derive"], c["factor"]
+    g = gen.make_grid(spec)
+    d = g.ndim
+    sc = _scale(c["grid"])
+    zero = torch.zeros(d, dtype=torch.float64)
+    if c["how"] in ("origin", "origin_"):
+        want = torch.tensor(c["new"], dtype=torch.float64)
+        g2 = g.origin(want.float()) if c["how"] == "origin" else g.clone().origin_(want.float())
+    else:
+        k = c["num"]
+        want = g.index_to_world(torch.full((d,), float(k if c["how"] == "crop" else -k), dtype=torch.float64), decimals=None).double()
+        g2 = g.crop(num=k) if c["how"] == "crop" else g.pad(num=k)
+    o = g2.index_to_world(zero, decimals=None).double()
+    if float((o - want).abs().max()) > RTOL32 * sc:
+        return (f"C02:origin-set:{c['how']}:sample0", f"after {c['how']} (derived: {c['derive']}) index 0 is at "
+                f"{proto.flat(o)}, want {proto.flat(want)}")
+    if float((g2.origin().double() - want).abs().max()) > RTOL32 * sc:
+        return (f"C02:origin-set:{c['how']}:getter", f"origin() = {proto.flat(g2.origin())}, want {proto.flat(want)}")
+    n = [int(v) for v in g2.size()]
+    mid = g2.index_to_world(torch.tensor([(v - 1) / 2 for v in n], dtype=torch.float64), decimals=None).double()
+    if float((mid - g2.center().double()).abs().max()) > RTOL32 * sc:
+        return (f"C02:origin-set:{c['how']}:center", f"index (n-1)/2 is at {proto.flat(mid)}, center() = {proto.flat(g2.center())}")
+    img = sitk_image(header_of(g2))
+    i = [0.5 * (v - 1) + 0.25 for v in n]
+    got = proto.flat(g2.index_to_world(torch.tensor(i, dtype=torch.float64), decimals=None))
+    ref = list(img.TransformContinuousIndexToPhysicalPoint(i))
+    if max(abs(a - b) for a, b in zip(got, ref)) > RTOL32 * sc:
+        return (f"C02:origin-set:{c['how']}:vs-itk", f"index {i} -> deepali {got}, ITK {ref}")
+    return None
+
+
 ORACLES = [
+    Oracle("origin_set", gen_origin_set, check_origin_set,
+           doc="origin(new) / origin_(new) / crop / pad on fresh and re-gridded grids (fractional stored size): sample 0 at "
+               "the requested origin, getter, centre = index (n-1)/2, agreement with SimpleITK"),
     Oracle("attrs", gen_header_oracle, check_attrs, nontrivial=_nt,
            doc="utils/simpleitk GridAttrs (NumPy twin): header fields, index->physical vs SimpleITK, center route"),
     Oracle("itk_maps", gen_itk_maps, check_itk_maps, nontrivial=_nt,
